@@ -320,3 +320,41 @@ M("C01", "stack-uncaught-keyerror", STK, "                    else:\n           
 M("C01", "twin-tuple-list", INI, "        vals = tuple(create_node(global_context, t, context, {}) for t in types)", "        vals = tuple([create_node(global_context, t, context, {}) for t in types])", "", expect="silent")
 M("C01", "twin-chooser-renamed", INI, "        assert len(alternatives) > 0, \"No alternatives presented\"\n        alternatives = [\n            x for x in alternatives if self.grammar.get_distance_to_terminal(x) <= (self.max_depth - ctx.depth)\n        ]\n        return self.random.choice(alternatives)",
   "        assert len(alternatives) > 0, \"No alternatives presented\"\n        fitting = [\n            x for x in alternatives if self.grammar.get_distance_to_terminal(x) <= (self.max_depth - ctx.depth)\n        ]\n        return self.random.choice(fitting)", "", expect="silent")
+
+# ------------------------------------------------------------------------------------- C03
+M("C03", "maxdepth-filter-strict", INI, "        alternatives = [\n            x for x in alternatives if self.grammar.get_distance_to_terminal(x) <= (self.max_depth - ctx.depth)\n        ]\n        return self.random.choice(alternatives)\n\n    def validate",
+  "        alternatives = [\n            x for x in alternatives if self.grammar.get_distance_to_terminal(x) < (self.max_depth - ctx.depth)\n        ]\n        return self.random.choice(alternatives)\n\n    def validate", "C03.R2")
+M("C03", "dsge-filter-lax", DSGE, "x for x in alternatives if self.grammar.get_distance_to_terminal(x) <= (self.max_depth - ctx.depth)", "x for x in alternatives if self.grammar.get_distance_to_terminal(x) <= (self.max_depth - ctx.depth + 1)", "C03.R2")
+M("C03", "pigrow-baseline-strict", INI, "baseline = [x for x in alternatives if self.grammar.get_distance_to_terminal(x) <= (self.max_depth - ctx.depth)]", "baseline = [x for x in alternatives if self.grammar.get_distance_to_terminal(x) < (self.max_depth - ctx.depth)]", "C03.R2")
+M("C03", "validate-le", INI, "        if self.max_depth < self.grammar.get_min_tree_depth():\n            if self.grammar.get_min_tree_depth() == 1000000:\n                raise GeneticEngineError(\n                    f\"\"\"Grammar's minimal tree depth is {self.grammar.get_min_tree_depth()}, which is the default tree depth.\n                    It's highly like that there are nodes of your grammar than cannot reach any terminal.\"\"\",\n                )\n            raise GeneticEngineError(\n                f\"\"\"Cannot use complete grammar for individual creation. Max depth ({self.max_depth})\n                is smaller than grammar's minimal tree depth ({self.grammar.get_min_tree_depth()}).\"\"\",\n            )\n\n\nclass FullDecider",
+  "        if self.max_depth <= self.grammar.get_min_tree_depth():\n            raise GeneticEngineError(\"infeasible\")\n\n\nclass FullDecider", "C03.R3")
+M("C03", "validate-not-called", INI, "        self.max_depth = max_depth\n        self.validate()\n\n    def choose_production_alternatives(self, ty: type, alternatives: list[type], ctx: LocalSynthesisContext) -> type:\n        assert len(alternatives) > 0, \"No alternatives presented\"\n        alternatives = [",
+  "        self.max_depth = max_depth\n\n    def choose_production_alternatives(self, ty: type, alternatives: list[type], ctx: LocalSynthesisContext) -> type:\n        assert len(alternatives) > 0, \"No alternatives presented\"\n        alternatives = [", "C03.R3")
+M("C03", "concrete-children-same-depth", INI, "            nctx = LocalSynthesisContext(context.depth + 1, context.nodes + 1, context.expansions + 1, dependent_vals)\n            for argn, argt in get_arguments(starting_symbol):",
+  "            nctx = LocalSynthesisContext(context.depth, context.nodes + 1, context.expansions + 1, dependent_vals)\n            for argn, argt in get_arguments(starting_symbol):", "C03.R1")
+M("C03", "union-member-one-deeper", INI, "        v = create_node(global_context, t, context, dependent_values, initial_values)", "        v = create_node(global_context, t, LocalSynthesisContext(context.depth + 1, context.nodes, context.expansions + 1, dependent_vals), dependent_values, initial_values)", "C03.R1")
+M("C03", "abstract-costs-a-level", INI, "                        context=LocalSynthesisContext(\n                            context.depth,\n                            context.nodes,", "                        context=LocalSynthesisContext(\n                            context.depth + 1,\n                            context.nodes,", "C03.R1")
+M("C03", "tuple-distance-min", GRM, "            return int(self.expansion_depthing) + max(\n                self.get_distance_to_terminal(t) for t in get_generic_parameters(ty)\n            )", "            return int(self.expansion_depthing) + min(\n                self.get_distance_to_terminal(t) for t in get_generic_parameters(ty)\n            )", "C03.R5")
+M("C03", "mutate-recreates-at-depth-zero", TB, "                return create_node(global_context, ty, i.gengy_synthesis_context, dependent_values)", "                return create_node(global_context, ty, LocalSynthesisContext(0, 0, 0, {}), dependent_values)", "C03.R4")
+M("C03", "twin-filter-mirrored", INI, "baseline = [x for x in alternatives if self.grammar.get_distance_to_terminal(x) <= (self.max_depth - ctx.depth)]", "baseline = [x for x in alternatives if (self.max_depth - ctx.depth) >= self.grammar.get_distance_to_terminal(x)]", "", expect="silent")
+M("C03", "twin-validate-mirrored", DSGE, "        if self.max_depth < self.grammar.get_min_tree_depth():", "        if self.grammar.get_min_tree_depth() > self.max_depth:", "", expect="silent")
+
+# ------------------------------------------------------------------------------------- C04
+M("C04", "grow-filter-strict", INI, "        alternatives = [\n            x for x in alternatives if self.grammar.get_distance_to_terminal(x) <= (self.max_depth - ctx.depth)\n        ]\n        return self.random.choice(alternatives)\n\n    def validate",
+  "        alternatives = [\n            x for x in alternatives if self.grammar.get_distance_to_terminal(x) < (self.max_depth - ctx.depth)\n        ]\n        return self.random.choice(alternatives)\n\n    def validate", "C04.R1")
+M("C04", "recurse-context-swapped", INI, "context=LocalSynthesisContext(context.depth, context.nodes, context.expansions + 1, dependent_vals),", "context=LocalSynthesisContext(context.nodes, context.depth, context.expansions + 1, dependent_vals),", "C04.R1")
+M("C04", "list-length-from-module-random", INI, "        length = decider.random_int(0, 10)\n", "        import random as _random\n        length = _random.randint(0, 10)\n", "C04.R2")
+M("C04", "full-frontier-two-above", INI, "or self.grammar.get_distance_to_terminal(x) == (self.max_depth - ctx.depth - 1)", "or self.grammar.get_distance_to_terminal(x) == (self.max_depth - ctx.depth - 2)", "C04.R3")
+M("C04", "explode-annotated-not-recursive", GRM, "                elif is_generic_list(ty) or is_annotated(ty):\n                    yield from explode_generics([get_generic_parameter(ty)])", "                elif is_generic_list(ty) or is_annotated(ty):\n                    yield get_generic_parameter(ty)", "C04.R4")
+M("C04", "twin-frontier-known-form", INI, "        if ctx.depth <= self.max_depth:", "        if self.max_depth >= ctx.depth:", "", expect="silent")
+
+# ------------------------------------------------------------------------------------- C05
+M("C05", "register-type-drops-annotated", GRM, "        elif is_annotated(ty):\n            gty = get_generic_parameter(ty)\n            self.register_type(gty)\n            return\n        elif is_generic(ty):", "        elif is_generic(ty):", "C05.R1")
+M("C05", "collect-types-list-not-recursive", GRM, "        if is_generic_list(ty):\n            gty = get_generic_parameter(ty)\n            yield from self.collect_types(gty)", "        if is_generic_list(ty):\n            gty = get_generic_parameter(ty)\n            yield gty", "C05.R1")
+M("C05", "distance-annotated-multistrip", GRM, "            ta = get_generic_parameter(ty)\n            return self.get_distance_to_terminal(ta)\n        elif is_generic_list(ty):", "            return self.get_distance_to_terminal(strip_annotations(ty))\n        elif is_generic_list(ty):", "C05.R1")
+M("C05", "abstract-distance-max", GRM, "                            val = min(\n                                val,\n                                int(self.expansion_depthing) + self.distanceToTerminal[prod],\n                            )", "                            val = max(\n                                val if val < INF_VALUE else 0,\n                                int(self.expansion_depthing) + self.distanceToTerminal[prod],\n                            )", "C05.R2")
+M("C05", "concrete-distance-min", GRM, "val = max(1 + self.get_distance_to_terminal(argt) for (_, argt) in args)", "val = min(1 + self.get_distance_to_terminal(argt) for (_, argt) in args)", "C05.R2")
+M("C05", "update-without-decrease-test", GRM, "                if val < old_val:\n                    changed = True\n                    self.distanceToTerminal[sym] = val", "                if val != old_val:\n                    changed = True\n                self.distanceToTerminal[sym] = val", "C05.R2")
+M("C05", "str-loses-zero-distance", GRM, "if (sym is int or sym is float or sym is str) and not self.expansion_depthing:", "if (sym is int or sym is float) and not self.expansion_depthing:", "C05.R3")
+M("C05", "reachability-filtered", GRM, "                            [argt for (_, argt) in args],\n", "                            [argt for (_, argt) in args if not is_terminal(argt, self.non_terminals)],\n", "C05.R1")
+M("C05", "twin-explode-split-branches", GRM, "                elif is_generic_list(ty) or is_annotated(ty):\n                    yield from explode_generics([get_generic_parameter(ty)])", "                elif is_generic_list(ty):\n                    yield from explode_generics([get_generic_parameter(ty)])\n                elif is_annotated(ty):\n                    yield from explode_generics([get_generic_parameter(ty)])", "", expect="silent")
